@@ -399,7 +399,29 @@ func runC01History(t *vs.Tape, cfg map[string]string) (res vs.Result) {
 		res.Infra = fmt.Sprintf("history corpus: %v", err)
 		return
 	}
-	n := []int{2000, 8000, 30000, 90000}[t.Weighted("history.n", 3, 3, 2, 1)]
+	n := []int{2000, 8000, 30000, 90000, 200000}[t.Weighted("history.n", 1, 1, 2, 3, 1)]
+	// loop-bearing functions exercise most of the per-canonicaliser state (SCEV
+	// renaming, induction-variable bookkeeping): they come round three times as often
+	{
+		var order []FingerprintResult
+		for _, r := range rs {
+			order = append(order, r)
+			if fn := r.GetSSAFunction(); fn != nil {
+				back := false
+				for _, b := range fn.Blocks {
+					for _, sc := range b.Succs {
+						if sc.Index <= b.Index {
+							back = true
+						}
+					}
+				}
+				if back {
+					order = append(order, r, r)
+				}
+			}
+		}
+		rs = order
+	}
 	sim := vs.NewSim(vs.ModeSingle, t)
 	sim.MapOrderOn, sim.PoolOn, sim.PoolSticky = true, true, true
 	vs.Attach(sim)
